@@ -67,7 +67,7 @@ def mk_rec(name, contig, site, rstart, rlen, sample='s1', r1=True, dup=False, qc
 def gen_bam(rng, in_pre=True):
     contigs = ['chr1', 'chr11', 'chr1_alt'][:rng.choice([1, 2, 3])]      # every name is a prefix of another one
     lens = [rng.choice([97, 100, 120, 250]), rng.choice([37, 50, 64, 97, 100]), rng.choice([5, 9, 12])][:len(contigs)]
-    binsz = rng.choice([5, 7, 10, 25])
+    binsz = rng.choice([5, 7, 10, 25, 49])      # 49: 1.0/49 rounds down, 49 * (1.0/49) < 1
     mfs = rng.choice([0, 3, 10, 30])
     minmq = rng.choice([0, 20, 50])
     recs = []
@@ -110,7 +110,7 @@ def gen_bam(rng, in_pre=True):
         if not in_pre and rng.random() < 0.1:
             site = ln + rng.choice([0, 1, binsz])                     # site at / beyond the contig end
         kind = rng.choices(['good', 'dup', 'qcfail', 'lowmq', 'mp_multi', 'mp_unique'], [8, 2, 1, 2, 1, 1])[0]
-        mapq = 60
+        mapq = rng.choice([60, 60, 60, 255, 254])                     # 255 = "mapping quality not available" is a legal MAPQ
         if kind == 'lowmq':
             mapq = rng.choice([0, max(0, minmq - 1)])
         elif rng.random() < 0.3:
@@ -379,6 +379,29 @@ def main():
                     for bpj in (1, 2, 3, 4, 12):
                         for order in (-1, -2):
                             run(dict(base, bpj=bpj), 'fake', 1, order)
+            # (1c) directed bin-size / MAPQ cases (independent of the seed): bin sizes whose float reciprocal rounds down
+            # (49, 98, 103, 107, 161) with sites on EXACT multiples of the bin size, and the MAPQ pool 255, 254, 0,
+            # threshold, threshold +- 1 against a threshold of 20
+            ln, thr = 700, 20
+            sites = sorted(set(k * b for b in (49, 98, 103, 107, 161) for k in range(0, ln // b + 1) if k * b < ln))
+            pool = [255, 254, 60, thr, thr + 1, thr - 1, 0]
+            recs = [mk_rec('e%d' % i, 'chr1', st, st, 4 if st + 4 <= ln else ln - st, sample=('cellA', 'cellB')[i % 2],
+                           mapq=pool[i % len(pool)], key='ref') for i, st in enumerate(sites)]
+            recs += [mk_rec('f%d' % i, 'chr1', 49 * (i + 1), 49 * (i + 1), 3, sample='cellB', mapq=q, key='alt')
+                     for i, q in enumerate(pool)]                     # every MAPQ of the pool also on a multiple of 49
+            bam = {'contigs': ['chr1'], 'lens': [ln], 'nfiles': 1, 'hetero': False, 'recs': recs}
+            path = state['path'] = write_bams(tmp, bam)
+            emit(dict(bam, ev='bam', source='directed_binsize_mapq', seed=seed, bam_index=-3))
+            for binsz in (49, 98, 103, 107, 161):
+                state['group'] += 1
+                base = {'bin': binsz, 'mfs': 5, 'minmq': thr, 'dedup': True, 'usekey': False, 'skip': [], 'kwargs': 'empty'}
+                for bpj in (1, 2, 50):
+                    run(dict(base, bpj=bpj), 'fake', 1, -2)
+            state['group'] += 1
+            for mq in (0, 255):                                       # thresholds 0 and 255 themselves
+                run({'bin': 49, 'mfs': 5, 'minmq': mq, 'dedup': True, 'usekey': False, 'skip': [], 'kwargs': 'empty', 'bpj': 3},
+                    'fake', 1, -1)
+                state['group'] += 1
             # (2) random BAMs x job partitions x schedules
             nbam, npart, nreal = (40, 8, 1) if tier == 'quick' else (600, 16, 2)
             for b in range(nbam):
